@@ -61,7 +61,7 @@ fn buffered_tags(set: &[u64]) -> Vec<V> {
 }
 
 /// drive `next().await` to the end (plus two more calls after None)
-fn run_async(bytes: &[u8], steps: &[AStep], set: &[u64]) -> (Obs, bool) {
+fn run_async(bytes: &[u8], steps: &[AStep], set: &[u64]) -> (Obs, bool, Vec<String>) {
     let r = catch_unwind(AssertUnwindSafe(|| {
         let src = AScript { data: bytes, pos: 0, steps, i: 0, polls: 0 };
         let mut it: TagIteratorAsync<AScript, V> = TagIteratorAsync::new(src, &buffered_tags(set));
@@ -70,7 +70,7 @@ fn run_async(bytes: &[u8], steps: &[AStep], set: &[u64]) -> (Obs, bool) {
         block_on(async {
             loop {
                 if items.len() > budget {
-                    return (Obs { items, term: Term::Budget }, true);
+                    return (Obs { items, term: Term::Budget }, true, vec![]);
                 }
                 match it.next().await {
                     None => {
@@ -81,22 +81,38 @@ fn run_async(bytes: &[u8], steps: &[AStep], set: &[u64]) -> (Obs, bool) {
                                 fused = false;
                             }
                         }
-                        return (Obs { items, term: Term::Done }, fused);
+                        return (Obs { items, term: Term::Done }, fused, vec![]);
                     }
                     Some(Ok(t)) => items.push((normalise(&t), it.last_emitted_tag_offset())),
-                    Some(Err(e)) => return (Obs { items, term: Term::Err(norm_err(&e)) }, true),
+                    Some(Err(e)) => {
+                        // what the next few calls after the first error yield (an error does not end the sequence)
+                        let mut tail = Vec::new();
+                        for _ in 0..POST_ERROR_CALLS {
+                            match it.next().await {
+                                None => {
+                                    tail.push("None".to_string());
+                                    break;
+                                }
+                                Some(Ok(t)) => tail.push(normalise(&t).short()),
+                                Some(Err(e2)) => tail.push(format!("Err({})", norm_err(&e2).kind())),
+                            }
+                        }
+                        return (Obs { items, term: Term::Err(norm_err(&e)) }, true, tail);
+                    }
                 }
             }
         })
     }));
     match r {
         Ok(x) => x,
-        Err(p) => (Obs { items: vec![], term: Term::Panic(panic_msg(p)) }, true),
+        Err(p) => (Obs { items: vec![], term: Term::Panic(panic_msg(p)) }, true, vec![]),
     }
 }
 
+const POST_ERROR_CALLS: usize = 4;
+
 /// the stream adapter (no offsets available)
-fn run_stream(bytes: &[u8], steps: &[AStep], set: &[u64]) -> (Vec<NItem>, Term) {
+fn run_stream(bytes: &[u8], steps: &[AStep], set: &[u64]) -> (Vec<NItem>, Term, Vec<String>) {
     let r = catch_unwind(AssertUnwindSafe(|| {
         let src = AScript { data: bytes, pos: 0, steps, i: 0, polls: 0 };
         let it: TagIteratorAsync<AScript, V> = TagIteratorAsync::new(src, &buffered_tags(set));
@@ -106,19 +122,32 @@ fn run_stream(bytes: &[u8], steps: &[AStep], set: &[u64]) -> (Vec<NItem>, Term) 
         block_on(async {
             loop {
                 if items.len() > budget {
-                    return (items, Term::Budget);
+                    return (items, Term::Budget, vec![]);
                 }
                 match st.next().await {
-                    None => return (items, Term::Done),
+                    None => return (items, Term::Done, vec![]),
                     Some(Ok(t)) => items.push(normalise(&t)),
-                    Some(Err(e)) => return (items, Term::Err(norm_err(&e))),
+                    Some(Err(e)) => {
+                        let mut tail = Vec::new();
+                        for _ in 0..POST_ERROR_CALLS {
+                            match st.next().await {
+                                None => {
+                                    tail.push("None".to_string());
+                                    break;
+                                }
+                                Some(Ok(t)) => tail.push(normalise(&t).short()),
+                                Some(Err(e2)) => tail.push(format!("Err({})", norm_err(&e2).kind())),
+                            }
+                        }
+                        return (items, Term::Err(norm_err(&e)), tail);
+                    }
                 }
             }
         })
     }));
     match r {
         Ok(x) => x,
-        Err(p) => (vec![], Term::Panic(panic_msg(p))),
+        Err(p) => (vec![], Term::Panic(panic_msg(p)), vec![]),
     }
 }
 
@@ -207,8 +236,8 @@ fn check(ctx: &mut Ctx, bytes: &[u8], steps: &[AStep], set: &[u64], origin: &str
     }
     let cfg = Cfg::strict().with_buffered(set);
     let blocking = parse_slice::<V>(bytes, &cfg);
-    let (obs, fused) = run_async(bytes, steps, set);
-    let (sitems, sterm) = run_stream(bytes, steps, set);
+    let (obs, fused, tail) = run_async(bytes, steps, set);
+    let (sitems, sterm, stail) = run_stream(bytes, steps, set);
     ctx.transitions += (obs.items.len() + sitems.len() + blocking.items.len() + 3) as u64;
     let reads = non_empty_reads(bytes.len(), steps);
     if reads >= 2 {
@@ -220,6 +249,12 @@ fn check(ctx: &mut Ctx, bytes: &[u8], steps: &[AStep], set: &[u64], origin: &str
     }
     // the two drivers must agree with each other in any case
     let stream_same = sitems == obs.item_list() && std::mem::discriminant(&sterm) == std::mem::discriminant(&obs.term);
+    if stream_same && tail != stail {
+        ctx.violation("stream-adapter-differs-from-next-loop-after-the-first-error", &d, &format!("next loop {} then {:?} | stream then {:?}", obs.short(), tail, stail));
+    }
+    if !tail.is_empty() {
+        ctx.count("histories_continued_after_the_first_error", 1);
+    }
     if !stream_same {
         ctx.violation("stream-adapter-differs-from-next-loop", &d, &format!("next loop {} | stream [{}] -> {}", obs.short(), sitems.iter().map(|i| i.short()).collect::<Vec<_>>().join(" "), sterm.short()));
     }
@@ -270,10 +305,10 @@ pub fn run(ctx: &mut Ctx) {
     assert_spec_matches::<V>(&rs);
     let quick = ctx.quick();
     let max_comp = ctx.tier.pick(10, 13);
-    ctx.meta("rule", "cases: (input, buffered set, async read schedule); inputs = documents of T∘E and their truncations / corruptions, documents > 64 KiB (one > 128 KiB with a 200 KB item); schedules = ALL compositions of the input into async read results for inputs up to the composition bound (+ Pending with self-wake before reads), <= 2 short reads otherwise; buffered sets: none, each single master present, all; both the next().await loop (offsets compared) and into_stream() (items compared) on a single-threaded executor. Oracle: items, offsets and first error equal the blocking iterator over the same bytes, ending once. Known finding D17 is narrowed by a defect model (blocking iterator fed one chunk per next() call): a multi-read schedule may deviate only exactly as that model predicts and, independently of the model, only by a premature end of input (items and offsets equal the blocking iterator's up to the first difference, which is an UnexpectedEOF / clean end / early End / early-closed Full at the same offset); single-read schedules, the stream adapter's agreement with the loop, and termination-once must hold outright. Non-trivial: schedules with >= 2 non-empty reads.");
+    ctx.meta("rule", "cases: (input, buffered set, async read schedule); inputs = documents of T∘E and their truncations / corruptions, documents > 64 KiB (one > 128 KiB with a 200 KB item); schedules = ALL compositions of the input into async read results for inputs up to the composition bound (+ Pending with self-wake before reads), <= 2 short reads otherwise; buffered sets: none, each single master present, all; both the next().await loop (offsets compared) and into_stream() (items compared) on a single-threaded executor. Oracle: items, offsets and first error equal the blocking iterator over the same bytes, ending once. Known finding D17 is narrowed by a defect model (blocking iterator fed one chunk per next() call): a multi-read schedule may deviate only exactly as that model predicts and, independently of the model, only by a premature end of input (items and offsets equal the blocking iterator's up to the first difference, which is an UnexpectedEOF / clean end / early End / early-closed Full at the same offset); single-read schedules, the stream adapter's agreement with the loop (also over the 4 calls that follow the first error: an error does not end the sequence), and termination-once must hold outright. Non-trivial: schedules with >= 2 non-empty reads.");
     ctx.meta("bounds", &format!("all compositions for inputs <= {} bytes; documents <= {} elements; 2 inputs > 64 KiB", max_comp, ctx.tier.pick(3, 4)));
     ctx.meta("assumptions", "single-threaded futures executor; a Pending poll wakes itself immediately");
-    for c in ["single_read_schedules_equal_to_blocking", "multi_read_schedules_equal_to_blocking", "pending_polls"] {
+    for c in ["single_read_schedules_equal_to_blocking", "multi_read_schedules_equal_to_blocking", "pending_polls", "histories_continued_after_the_first_error"] {
         ctx.expect_nonzero(c);
     }
     let p = DocParams { max_nodes: ctx.tier.pick(3, 4), globals: vec![ID_VOID], exclude: vec![], unknown_subsets: true, devs: 0, payload_classes: false, big_payloads: false, noncanonical: false, width_devs: false, extras: !quick, all_widths: false };
